@@ -12,6 +12,32 @@ def region_metadata(case):
     return any(o.startswith(("req instm", "req instupdm")) for o in case.ops)
 
 
+def _ns_tenant_cfg(op):
+    w = op.split()
+    return len(w) == 4 and w[0] == "req" and w[1].startswith("cfg") and int(w[3]) % 3 == 2
+
+
+def region_ns_upgrade(case):
+    """known finding F32: a namespace AddOnly / Update (which only act on an existing entry) together with a
+    configuration in a `ns<k>` tenant, whose weak namespace entry is created asynchronously by the config actor"""
+    has_up = any(o.startswith(("req nsadd", "req nsupd", "req nsdel")) for o in case.ops)
+    return has_up and any(_ns_tenant_cfg(o) for o in case.ops)
+
+
+def avoid_ns_upgrade(ops):
+    """keep a generated history out of F32's region: when it contains AddOnly / Update / Delete of namespaces, its
+    configurations stay in the t0/t1 tenants"""
+    if not any(o.startswith(("req nsadd", "req nsupd", "req nsdel")) for o in ops):
+        return ops
+    out = []
+    for o in ops:
+        if _ns_tenant_cfg(o):
+            w = o.split()
+            o = "%s %s %s %d" % (w[0], w[1], w[2], int(w[3]) + 1)
+        out.append(o)
+    return out
+
+
 def pick_kind(rng, only=None):
     ks = [(k, w) for k, w in KINDS if only is None or k.startswith(only)]
     tot = sum(w for _, w in ks)
@@ -69,7 +95,7 @@ def gen_paths(rng, tier):
         if pending:
             ops.append("flush " + splits(rng, pending))
         ops += ["dump", "restart R", "restart F", "dump"]
-        cases.append(Case("paths-%d" % i, ops, True, "random"))
+        cases.append(Case("paths-%d" % i, avoid_ns_upgrade(ops), True, "random"))
     # every kind on its own, through all three paths
     for k, _ in KINDS:
         ops = ["start"] + ["req %s %d %d" % (k, a, b) for a, b in [(0, 1), (1, 2), (0, 3), (5, 7), (1, 2)]]
@@ -105,12 +131,17 @@ def gen_restart(rng, tier):
             if rng.random() < 0.4:
                 ops.append("dump")
         ops += ["dump", "restart R", "dump", "compact R", "restart R", "restart F", "dump"]
-        cases.append(Case("restart-%d" % i, ops, True, "random"))
+        cases.append(Case("restart-%d" % i, avoid_ns_upgrade(ops), True, "random"))
     # directed: a compaction in the middle of a block of history ids on the node that draws them, more draws, restart, draw
     for extra in (1, 3):
         ops = ["start", "reqd R 1 1", "reqd R 2 2", "flush 10", "compact R"] + ["reqd R %d %d" % (j, j) for j in range(extra)]
         ops += ["flush 10", "dump", "restart R", "dump", "reqd R 3 3", "flush 10", "dump"]
         cases.append(Case("midblock-%d" % extra, ops, True, "boundary"))
+    # directed: a user-created namespace that is also in use (it holds a configuration) is compacted and the node restarted
+    for k in (1, 3):
+        ops = ["start", "req nsset %d 7" % k, "req cfgset %d 2" % k, "req cfgset %d 5" % (k + 5), "flush 10", "dump", "compact R",
+               "restart R", "dump", "req cfgrm %d 2" % k, "flush 10", "compact R", "restart R", "dump"]
+        cases.append(Case("user-namespace-in-use-%d" % k, ops, True, "boundary"))
     # directed: an interrupted compaction whose file is longer than the next successful one, for every component that
     # comes late in the snapshot (the removed item is then exactly the stale tail)
     for add, rm in [("inst 1 1", "instrm 1 0"), ("tblset 0 1", "tblrm 0 0"), ("nsset 1 1", "nsdel 1 0"), ("cfgset 0 1", "cfgrm 0 0")]:
@@ -177,7 +208,7 @@ def gen_install(rng, tier):
                 if not region_install_before_restart(Case("x", ops + ["dumpn"])):
                     ops.append("dumpn")
                 ops += ["restart N", "dumpn"]
-        cases.append(Case("install-%d" % i, ops, True, "random"))
+        cases.append(Case("install-%d" % i, avoid_ns_upgrade(ops), True, "random"))
     # directed: first-time joiner that applies nothing after the installation; a joiner that fell behind
     d1 = ["start", "req members 1 1", "req nodeaddr 2 7", "req cfgset 1 1", "req nsset 1 1", "req tblset 0 1", "flush 10", "compact L", "install L N", "restart N", "dumpn",
           "restart N", "dumpn"]
